@@ -4,9 +4,6 @@ package main
 // malformed stream for the decoders.
 
 import (
-	"encoding/xml"
-	"fmt"
-
 	"mellium.im/xmpp/jid"
 	"mellium.im/xmpp/stanza"
 	"mellium.im/xmpp/stream"
@@ -460,7 +457,5 @@ func corpus() []input {
 		dec(`<presence id="1" id="2" to="@" />`),
 		dec(`<iq xmlns="jabber:server" a:to="q@" xmlns:a="urn:a" xml:lang="en" lang="de" type=""/>`),
 	}
-	_ = fmt.Sprint
-	_ = xml.Name{}
 	return out
 }
